@@ -191,7 +191,7 @@ pub fn spec(id: &str) -> Option<PropSpec> {
             id: "C13",
             level: "exploration",
             families: vec![(Family::C13, 60), (Family::C05, 20), (Family::C08, 20)],
-            quick_runs: 24_000,
+            quick_runs: 60_000,
             thorough_runs: 2_000_000,
             rule: "as C05 plus a cooperative closing phase: the peer acknowledges everything it received, stalls are lifted; at final quiescence with fewer exchanges outstanding than the limit every started operation that was not cancelled must have completed (bounded liveness: nothing is left that could wake it); distinct = distinct abstract history signature; non-trivial = at least one operation was parked on the window or on back-pressure (window reached the limit) and a cancellation or ready() took part",
             nontrivial: nt_c13,
